@@ -330,40 +330,40 @@ func pickLength(r *core.Rand, old int) uint32 {
 
 // Stock msgpack values used by value-level replacement.
 var mpStock = [][]byte{
-	{0xc0},       // nil
-	{0xc2},       // false
-	{0xc3},       // true
-	{0x00},       // 0
-	{0xff},       // -1
-	{0x90},       // []
-	{0x80},       // {}
-	{0xa0},       // ""
-	{0xc4, 0x00}, // empty bin
-	{0xcb, 0x7f, 0xf8, 0, 0, 0, 0, 0, 1},                      // double NaN
-	{0xca, 0x7f, 0xc0, 0, 0},                                  // float NaN
-	{0xcb, 0x7f, 0xf0, 0, 0, 0, 0, 0, 0},                      // +Inf
-	{0xcb, 0xff, 0xf0, 0, 0, 0, 0, 0, 0},                      // -Inf
-	{0xcb, 0x80, 0, 0, 0, 0, 0, 0, 0},                         // -0.0
-	{0xcf, 0xff, 0xff, 0xff, 0xff, 0xff, 0xff, 0xff, 0xff},    // max uint64
-	{0xd3, 0x80, 0, 0, 0, 0, 0, 0, 0},                         // min int64
-	{0xd4, 0x00, 0x00},                                        // unknown
-	{0xc7, 0x00, 0x00},                                        // unknown (ext8, empty)
-	{0xc7, 0x03, 0x0c, 0x81, 0x01, 0xc2},                      // unknown, not null
-	{0xc7, 0x03, 0x0c, 0x81, 0x01, 0xc3},                      // unknown, null
-	{0xc7, 0x05, 0x0c, 0x82, 0x01, 0xc2, 0x01, 0xc3},          // not null then null
-	{0xc7, 0x05, 0x0c, 0x82, 0x01, 0xc3, 0x01, 0xc2},          // null then not null
-	{0xc7, 0x03, 0x0c, 0x81, 0x05, 0xff},                      // length lower bound -1
-	{0xc7, 0x05, 0x0c, 0x82, 0x05, 0x03, 0x06, 0x01},          // length 3..1
-	{0xc7, 0x04, 0x0c, 0x81, 0x02, 0xa1, 'a'},                 // prefix "a"
-	{0xc7, 0x07, 0x0c, 0x82, 0x02, 0xa1, 'a', 0x02, 0xa1, 'b'}, // prefix "a" then "b"
-	{0xc7, 0x05, 0x0c, 0x81, 0x03, 0x92, 0x01, 0xc3},          // >= 1
-	{0xc7, 0x09, 0x0c, 0x82, 0x03, 0x92, 0x05, 0xc3, 0x04, 0x92, 0x01, 0xc3}, // >=5, <=1
-	{0xc7, 0x09, 0x0c, 0x82, 0x03, 0x92, 0x01, 0xc2, 0x04, 0x92, 0x01, 0xc2}, // >1, <1
+	{0xc0},                               // nil
+	{0xc2},                               // false
+	{0xc3},                               // true
+	{0x00},                               // 0
+	{0xff},                               // -1
+	{0x90},                               // []
+	{0x80},                               // {}
+	{0xa0},                               // ""
+	{0xc4, 0x00},                         // empty bin
+	{0xcb, 0x7f, 0xf8, 0, 0, 0, 0, 0, 1}, // double NaN
+	{0xca, 0x7f, 0xc0, 0, 0},             // float NaN
+	{0xcb, 0x7f, 0xf0, 0, 0, 0, 0, 0, 0}, // +Inf
+	{0xcb, 0xff, 0xf0, 0, 0, 0, 0, 0, 0}, // -Inf
+	{0xcb, 0x80, 0, 0, 0, 0, 0, 0, 0},    // -0.0
+	{0xcf, 0xff, 0xff, 0xff, 0xff, 0xff, 0xff, 0xff, 0xff},                         // max uint64
+	{0xd3, 0x80, 0, 0, 0, 0, 0, 0, 0},                                              // min int64
+	{0xd4, 0x00, 0x00},                                                             // unknown
+	{0xc7, 0x00, 0x00},                                                             // unknown (ext8, empty)
+	{0xc7, 0x03, 0x0c, 0x81, 0x01, 0xc2},                                           // unknown, not null
+	{0xc7, 0x03, 0x0c, 0x81, 0x01, 0xc3},                                           // unknown, null
+	{0xc7, 0x05, 0x0c, 0x82, 0x01, 0xc2, 0x01, 0xc3},                               // not null then null
+	{0xc7, 0x05, 0x0c, 0x82, 0x01, 0xc3, 0x01, 0xc2},                               // null then not null
+	{0xc7, 0x03, 0x0c, 0x81, 0x05, 0xff},                                           // length lower bound -1
+	{0xc7, 0x05, 0x0c, 0x82, 0x05, 0x03, 0x06, 0x01},                               // length 3..1
+	{0xc7, 0x04, 0x0c, 0x81, 0x02, 0xa1, 'a'},                                      // prefix "a"
+	{0xc7, 0x07, 0x0c, 0x82, 0x02, 0xa1, 'a', 0x02, 0xa1, 'b'},                     // prefix "a" then "b"
+	{0xc7, 0x05, 0x0c, 0x81, 0x03, 0x92, 0x01, 0xc3},                               // >= 1
+	{0xc7, 0x09, 0x0c, 0x82, 0x03, 0x92, 0x05, 0xc3, 0x04, 0x92, 0x01, 0xc3},       // >=5, <=1
+	{0xc7, 0x09, 0x0c, 0x82, 0x03, 0x92, 0x01, 0xc2, 0x04, 0x92, 0x01, 0xc2},       // >1, <1
 	{0xc7, 0x0d, 0x0c, 0x81, 0x03, 0x92, 0xcb, 0x7f, 0xf8, 0, 0, 0, 0, 0, 0, 0xc3}, // >= NaN
-	{0xc7, 0x04, 0x0c, 0x81, 0x03, 0x90},                      // bound is an empty array
-	{0xc7, 0x06, 0x0c, 0x81, 0x03, 0x92, 0xc0, 0xc3},          // bound is null
-	{0x92, 0xc4, 0x08, '"', 's', 't', 'r', 'i', 'n', 'g', '"', 0xa1, 'x'}, // dynamic wrapper
-	{0x92, 0xc4, 0x09, '"', 'd', 'y', 'n', 'a', 'm', 'i', 'c', '"', 0xc0}, // dynamic wrapper of dynamic
+	{0xc7, 0x04, 0x0c, 0x81, 0x03, 0x90},                                           // bound is an empty array
+	{0xc7, 0x06, 0x0c, 0x81, 0x03, 0x92, 0xc0, 0xc3},                               // bound is null
+	{0x92, 0xc4, 0x08, '"', 's', 't', 'r', 'i', 'n', 'g', '"', 0xa1, 'x'},          // dynamic wrapper
+	{0x92, 0xc4, 0x09, '"', 'd', 'y', 'n', 'a', 'm', 'i', 'c', '"', 0xc0},          // dynamic wrapper of dynamic
 }
 
 // mpMutate applies one msgpack-aware mutation; ok=false when no edit point was found.
